@@ -25,8 +25,10 @@ def named(kind, name, **kw):
     d.update(kw)
     return {kind: d}
 
+EMPTY_RECORD = ("EmptyRecord", "com.linkedin.restli.common")    # the runtime's own fieldless record: known to the generators
+
 def record(name, fields, includes=()):
-    return named("record", name, includes=[{"name": i, "namespace": NS} for i in includes], fields=fields)
+    return named("record", name, includes=[({"name": i[0], "namespace": i[1]} if isinstance(i, tuple) else {"name": i, "namespace": NS}) for i in includes], fields=fields)
 
 PRIMS = [("i32", "int32"), ("i64", "int64"), ("f32", "float32"), ("f64", "float64"), ("b", "bool"), ("s", "string"), ("by", "bytes")]
 PRIM_DEFAULTS = {"i32": "-7", "i64": "9007199254740993", "f32": "1.5", "f64": "-2.5e-8", "b": "true", "s": "\"d'(e),f:\\\"g\\\\\"", "by": "\"\\u0000\\u0001ab\""}
@@ -43,6 +45,8 @@ TYPES = [
     record("IncBase", [F("x", P("int32"), default="5"), F("y", P("string"))]),
     record("IncMid", [F("m", P("int32"))], includes=["IncBase"]),
     record("IncTop", [F("t", P("string"), optional=True)], includes=["IncMid"]),
+    # the fieldless EmptyRecord listed BEFORE a record that does have fields
+    record("IncEmpty", [F("own", P("int32"), optional=True)], includes=[EMPTY_RECORD, "IncBase"]),
     # two records including the same record, which itself includes one (shared required-field lists)
     record("SibA", [F("a1", P("int32")), F("a2", P("string"))]),
     record("SibE", [F("e", P("int32"))], includes=["SibA"]),
@@ -73,7 +77,9 @@ TYPES = [
     # container defaults that merely CONTAIN an empty container or the text of one
     record("DefNested", [F("aa", A(A(P("int32"))), default="[[1],[]]"), F("mm", M(M(P("string"))), default="{\"k\":{}}"),
                          F("texts", A(P("string")), default="[\"x[]y\",\"{}\",\"two  words\",\" padded \"]"),
-                         F("sp", M(P("string")), default="{\"first key\":\"a\\tb c\"}"), F("req", P("int32"))]),
+                         F("sp", M(P("string")), default="{\"first key\":\"a\\tb c\"}"),
+                         F("fx", R("F2"), default="\"\\u00ca\\u00fe\""),      # a fixed default with bytes >= 0x80 (one character per byte)
+                         F("req", P("int32"))]),
     record("DefAfter", [F("n", P("int32"), default="3"), F("s", P("string")), F("arr", A(P("int32")), optional=True), F("inner", R("DefPrims")), F("tail", R("DefContainers"))]),
     record("DefOuter", [F("inner", R("DefPrims")), F("n", P("int32"), default="3"), F("oinner", R("DefPrims"), optional=True)]),
     # annotated field names that are STRING prefixes (not path prefixes) of one another
@@ -186,6 +192,15 @@ def str_tokens(text):
         else: out.append(ch)
     return "<<" + ", ".join(tla_str(c) for c in out) + ">>"
 
+def byte_tokens(text):
+    """A bytes / fixed default literal: one character per byte; bytes outside printable ASCII as xNN tokens."""
+    out = []
+    for ch in text:
+        o = ord(ch)
+        if o < 0x20 or o >= 0x7f: out.append("x%02X" % o)
+        else: out.append(ch)
+    return "<<" + ", ".join(tla_str(c) for c in out) + ">>"
+
 def find_type(name):
     for t in TYPES:
         for kind, d in t.items():
@@ -200,13 +215,13 @@ def tla_default(t, lit):
         if p in ("float32", "float64"): return '[t |-> "num", p |-> %s, v |-> %s]' % (tla_str(p), tla_str(repr(float(lit)) if not isinstance(lit, str) else lit))
         if p == "bool": return '[t |-> "bool", v |-> %s]' % tla_str("true" if lit else "false")
         if p == "string": return '[t |-> "str", v |-> %s]' % str_tokens(lit)
-        if p == "bytes": return '[t |-> "bytes", v |-> %s]' % str_tokens(lit)
+        if p == "bytes": return '[t |-> "bytes", v |-> %s]' % byte_tokens(lit)
     if "array" in t: return '[t |-> "arr", v |-> <<%s>>]' % ", ".join(tla_default(t["array"], x) for x in lit)
     if "map" in t: return '[t |-> "map", v |-> <<%s>>]' % ", ".join('[k |-> %s, v |-> %s]' % (str_tokens(k), tla_default(t["map"], v)) for k, v in lit.items())
     if "reference" in t:
         kind, d = find_type(t["reference"]["name"])
         if kind == "enum": return '[t |-> "enum", v |-> %s]' % tla_str(lit)
-        if kind == "fixed": return '[t |-> "fixed", v |-> %s]' % str_tokens(lit)
+        if kind == "fixed": return '[t |-> "fixed", v |-> %s]' % byte_tokens(lit)
         if kind == "typeref": return tla_default({"primitive": d["type"]}, lit)
         if kind == "record":
             fs = all_fields(d)
@@ -222,6 +237,8 @@ def tla_default(t, lit):
 def all_fields(rec):
     out = []
     for inc in rec.get("includes", []):
+        if inc["namespace"] != NS:
+            continue        # EmptyRecord: no fields
         out += all_fields(find_type(inc["name"])[1])
     return out + rec["fields"]
 
